@@ -176,19 +176,23 @@ def _build_nested(n, ks, gs):
     return p, kids, grand
 
 
-@cond(timeout=600, encodes=ENC,
-      bound="child sequences of length <= 3 over a 4-tag alphabet, each child optionally holding one nested element of any of the 4 tags "
-            "(PowerPoint-authored subtrees such as p:nvPr/p:extLst or c:dLbl/c:txPr); successor tuple: 2 slots, each absent or one of the 4 "
-            "tags; operation: insert_element_before / remove_all of the successor tags / ZeroOrOne getter + get_or_add (choice variable): "
-            "only children count, nested elements stay where they are")
-def nested_elements_are_not_siblings(n: int, k0: int, k1: int, k2: int, g0: int, g1: int, g2: int, s0: int, s1: int, op: int) -> bool:
+NEST_N = 3 if THOROUGH else 2
+
+
+@cond(timeout=900, encodes=ENC,
+      bound="child sequences of length <= 2 (quick) / 3 (thorough) over a 4-tag alphabet, one of the children optionally holding one nested "
+            "element of any of the 4 tags (PowerPoint-authored subtrees such as p:nvPr/p:extLst or c:dLbl/c:txPr); one successor tag or "
+            "none; operation: insert_element_before / remove_all of the successor tag / ZeroOrOne get_or_add (choice variable): only "
+            "children count, nested elements stay where they are")
+def nested_elements_are_not_siblings(n: int, k0: int, k1: int, k2: int, gpos: int, g: int, s0: int, op: int) -> bool:
     """
-    pre: 0 <= n <= 3 and 0 <= k0 < 4 and 0 <= k1 < 4 and 0 <= k2 < 4
-    pre: -1 <= g0 < 4 and -1 <= g1 < 4 and -1 <= g2 < 4 and -1 <= s0 < 4 and -1 <= s1 < 4 and 0 <= op < 3
+    pre: 0 <= n <= NEST_N and 0 <= k0 < 4 and 0 <= k1 < 4 and 0 <= k2 < 4 and (n > 2 or k2 == 0) and (n > 1 or k1 == 0) and (n > 0 or k0 == 0)
+    pre: 0 <= gpos < 3 and -1 <= g < 4 and (g >= 0 or gpos == 0) and -1 <= s0 < 4 and 0 <= op < 3
     post: _
     """
-    p, kids, grand = _build_nested(n, [k0, k1, k2], [g0, g1, g2])
-    succ = [TAGS[s] for s in (s0, s1) if s >= 0]
+    gs = [g if gpos == j else -1 for j in range(3)]
+    p, kids, grand = _build_nested(n, [k0, k1, k2], gs)
+    succ = [TAGS[s] for s in (s0,) if s >= 0]
     sc = [qn(t) for t in succ]
     if op == 0:
         e = OxmlElement(TAGS[0])
